@@ -9,14 +9,18 @@ def run(ctx):
     th = ctx.tier == 'thorough'
     fc.run_tlc_many(ctx, fc.retry_model_jobs(th, 'c28'), threads=4)
     cases = fc.gen_retry_cases(ctx, 40000 if th else 8000, ctx.seed)
-    sel = fc.select_retry_cases(cases, 3000 if th else 380, ctx.seed)
+    sel = fc.select_retry_cases(cases, 3000 if th else 340, ctx.seed)
+    # DoMulti: batches of every mix of command classes and MULTI ... EXEC blocks (whole-batch retry of the single-connection
+    # wrappers, entry-by-entry retry and block redirection of the cluster wrapper)
+    bcases = fc.gen_retry_cases(ctx, 20000 if th else 4000, ctx.seed, 'Gen_batch.cfg')
+    sel += fc.select_retry_cases(bcases, 1500 if th else 160, ctx.seed + 2)
     verdicts, rep = fc.run_retry_scenarios(ctx, sel)
     fc.report_retry_verdicts(ctx, verdicts, lambda w: w not in fc.C03_WHATS, sel)
-    ctx.extra['scenarios_generated'] = len(cases)
+    ctx.extra['scenarios_generated'] = len(cases) + len(bcases)
     ctx.extra['scenarios_run'] = len(sel)
     ctx.exhaustive = False
     ctx.assumptions += [
-        'fakeredis stands for the servers; a re-send is a second SRecv of the same request id',
+        'fakeredis stands for the servers; a re-send is a second SRecv of the same request id; every member of a batch is judged on its own',
         'contexts are ended and Close() is called from inside the server intercept or the RetryDelay callback, which makes "before the '
         'decision" a causal fact of the trace; other placements are covered by the model only',
         'Retry.tla scenarios are drawn by TLC simulation (seeded) and chosen by strata, not exhaustively']
